@@ -28,6 +28,11 @@ def gen_tokens(rng):
             # a ramp command with an expression-valued argument closed by the next separator, followed by the one-character velocity commands
             toks.append(rng.choice(["Cresc=2", "Decresc=3", "Cresc=%d" % rng.randint(1, 4)]) + "\0" if rng.random() < 0.5 else rng.choice(["Cresc=2;", "Decresc=3;"]))
             toks.append(rng.choice([")", "(", ") c", "( d"]))
+        if rng.random() < 0.05:
+            # string macros defined on lines of their own and compared as texts: equality is a matter of the characters, not of where
+            # a definition stands
+            if rng.random() < 0.5: toks += ["#SA={c}", "#SB={%s}" % rng.choice(["c", "c", "d"]), "IF(#SA=#SB){ c }ELSE{ e }"]
+            else: toks += ["#Mode={major}", rng.choice(["c", "r"]), "IF(#Mode%s{major}){ 'ceg' }ELSE{ 'ce-g' }" % rng.choice(["=", "==", "!="])]
         if rng.random() < 0.06:
             # a controller written in the short form `y<no>,<value>` (no parentheses of its own), followed by the velocity step `)`
             # (the value is an expression: `|`, a line break or `;` would end or continue it, so only blanks or a range comment follow — mark \1)
